@@ -669,6 +669,12 @@ class _Exporter:
             return text
         return ""
 
+    def _default_opset_argument(self, opsets: dict[str, int], prefix: str = "") -> str:
+        """The default_opset argument of @script, needed when operators (x + y) replace op calls."""
+        if self.use_operators and "" in opsets:
+            return f"{prefix}default_opset={self._make_opset_name('', opsets[''])}"
+        return ""
+
     def _translate_function_signature(self, funproto: onnx.FunctionProto) -> str:
         """Generate signature for FunctionProto."""
         type_map = _attribute_param_types(funproto)
@@ -705,7 +711,7 @@ class _Exporter:
             result.append(line)
 
         opset_name = self._make_opset_name(funproto.domain, 1)
-        add_line(f"@script({opset_name})")
+        add_line(f"@script({opset_name}{self._default_opset_argument(opsets, ', ')})")
         fun_name = self._make_callee_name(funproto.domain, 1, funproto.name)
         fun_sig = self._translate_function_signature(funproto)
         add_line(f"def {fun_name}{fun_sig}")
@@ -738,7 +744,7 @@ class _Exporter:
         else:
             indent_level = 1
             indent = ""
-        add(f"{indent}@script()")
+        add(f"{indent}@script({self._default_opset_argument(opsets)})")
         def_index = len(result)
         def_indent = indent
         add("")  # The signature: filled in below, once the body has named the values.
